@@ -14,9 +14,11 @@ import (
 	"context"
 	"crypto/aes"
 	"crypto/cipher"
+	"encoding/binary"
 	"encoding/json"
 	"fmt"
 	"hash/crc32"
+	"io"
 	"math/rand"
 	"os"
 	"path/filepath"
@@ -29,6 +31,7 @@ import (
 	"time"
 
 	"github.com/google/tink/go/kwp/subtle"
+	"github.com/hashicorp/raft"
 	client "github.com/liftbridge-io/liftbridge-api/v2/go"
 	"github.com/nats-io/nats.go"
 	"google.golang.org/grpc/codes"
@@ -198,6 +201,8 @@ type vC17State struct {
 	HK     map[string]map[string]string      `json:"hk"`  // replica -> stream -> key
 	Paused map[string]bool                   `json:"paused"`
 	Log    map[string]map[string][]vC17Entry `json:"log"` // replica -> stream -> entries
+	MEnc   map[string]map[string]bool        `json:"menc"` // replica -> stream -> that server's metadata says "encrypted"
+	Snap   map[string]map[string]string      `json:"snap"` // replica -> stream -> latest persisted snapshot: none / on / off
 }
 
 type vC17Run struct {
@@ -428,18 +433,119 @@ func (r *vC17Run) handlerKey(p *partition) string {
 	return "unknown"
 }
 
+// encOf: does a partition built by server rep from this stream configuration encrypt (the server default
+// overridden by the stream's own setting, computed by the real ApplyOverrides)
+func (r *vC17Run) encOf(rep string, c *proto.StreamConfig) bool {
+	sc := &StreamsConfig{Encryption: r.srvs[rep].config.Streams.Encryption}
+	sc.ApplyOverrides(c)
+	return sc.Encryption
+}
+
+// metaEnc: what the LIVE metadata of server rep says about stream s
+func (r *vC17Run) metaEnc(rep, s string) bool {
+	st := r.srvs[rep].metadata.GetStream(r.streams[s])
+	if st == nil {
+		vC17Fail("stream of %s is gone from the metadata of %s", s, rep)
+	}
+	return r.encOf(rep, st.GetConfig())
+}
+
+// latestSnapshot reads the newest snapshot in the Raft snapshot store of server rep (nil: there is none)
+func (r *vC17Run) latestSnapshot(rep string) *proto.MetadataSnapshot {
+	store, err := raft.NewFileSnapshotStore(filepath.Join(r.cfgs[rep].DataDir, "raft"), 2, io.Discard)
+	if err != nil {
+		vC17Fail("snapshot store of %s: %v", rep, err)
+	}
+	metas, err := store.List()
+	if err != nil {
+		vC17Fail("snapshot list of %s: %v", rep, err)
+	}
+	if len(metas) == 0 {
+		return nil
+	}
+	_, rc, err := store.Open(metas[0].ID)
+	if err != nil {
+		vC17Fail("snapshot open: %v", err)
+	}
+	defer rc.Close()
+	b, err := io.ReadAll(rc)
+	if err != nil || len(b) < 4 || int(binary.BigEndian.Uint32(b[:4])) != len(b)-4 {
+		vC17Fail("snapshot of %s is not size + data (%d bytes, %v)", rep, len(b), err)
+	}
+	snap := &proto.MetadataSnapshot{}
+	if err := snap.Unmarshal(b[4:]); err != nil {
+		vC17Fail("snapshot of %s: %v", rep, err)
+	}
+	return snap
+}
+
+// snapEnc: what the newest persisted snapshot of server rep says about stream s
+func (r *vC17Run) snapEnc(rep, s string, snap *proto.MetadataSnapshot) string {
+	if snap == nil {
+		return "none"
+	}
+	for _, st := range snap.Streams {
+		if st.Name == r.streams[s] {
+			if r.encOf(rep, st.Config) {
+				return "on"
+			}
+			return "off"
+		}
+	}
+	return "none"
+}
+
+// takeSnapshot makes the Raft node of server rep persist a snapshot of its state machine now
+func (r *vC17Run) takeSnapshot(rep string) string {
+	err := r.srvs[rep].getRaft().Snapshot().Error()
+	if err == raft.ErrNothingNewToSnapshot {
+		return "nothing new"
+	}
+	if err != nil {
+		vC17Fail("snapshot on %s: %v", rep, err)
+	}
+	return "taken"
+}
+
+// installSnapshot: server rep, running, takes a snapshot and is handed the newest snapshot of its
+// store back (real Server.Restore on the running server, as Raft does when it installs a snapshot)
+func (r *vC17Run) installSnapshot(rep string) string {
+	what := r.takeSnapshot(rep)
+	store, err := raft.NewFileSnapshotStore(filepath.Join(r.cfgs[rep].DataDir, "raft"), 2, io.Discard)
+	if err != nil {
+		vC17Fail("snapshot store of %s: %v", rep, err)
+	}
+	metas, err := store.List()
+	if err != nil || len(metas) == 0 {
+		vC17Fail("no snapshot to install on %s: %v", rep, err)
+	}
+	_, rc, err := store.Open(metas[0].ID)
+	if err != nil {
+		vC17Fail("snapshot open: %v", err)
+	}
+	if err := r.srvs[rep].Restore(rc); err != nil {
+		return what + ", restore: " + err.Error()
+	}
+	return what + ", installed"
+}
+
 func (r *vC17Run) state() vC17State {
 	st := vC17State{Up: r.allUp(), Env: r.env, Lead: map[string]string{}, HK: map[string]map[string]string{},
-		Paused: map[string]bool{}, Log: map[string]map[string][]vC17Entry{}}
+		Paused: map[string]bool{}, Log: map[string]map[string][]vC17Entry{},
+		MEnc: map[string]map[string]bool{}, Snap: map[string]map[string]string{}}
 	for _, s := range []string{"enc", "plain"} {
 		st.Lead[s] = r.leaderOf(s)
 		st.Paused[s] = r.part(s).IsPaused()
 	}
 	for _, rep := range r.reps {
 		st.HK[rep], st.Log[rep] = map[string]string{}, map[string][]vC17Entry{}
+		st.MEnc[rep], st.Snap[rep] = map[string]bool{}, map[string]string{}
+		snap := r.latestSnapshot(rep)
 		for _, s := range []string{"enc", "plain"} {
 			st.HK[rep][s] = r.handlerKey(r.partAt(rep, s))
 			st.Log[rep][s] = r.project(rep, s)
+			st.MEnc[rep][s] = r.metaEnc(rep, s)
+			st.Snap[rep][s] = r.snapEnc(rep, s, snap)
 		}
 	}
 	return st
@@ -1012,7 +1118,7 @@ func TestVerifC17Server(t *testing.T) {
 			switch a {
 			case "Subscribe":
 				args["at"], args["rev"] = r.replica(vStrDef(step, "at", "a"), vStr(step, "s")), vBool(step, "rev")
-			case "Tamper":
+			case "Tamper", "Snapshot", "Install":
 				args["r"] = r.replica(vStrDef(step, "r", "a"), "enc")
 			case "Publish":
 				if _, ok := args["fails"]; !ok {
@@ -1090,6 +1196,14 @@ func TestVerifC17Server(t *testing.T) {
 			case "Tamper":
 				at := args["r"].(string)
 				obs["what"] = r.tamper(at, int(vInt(step, "j")), vStr(step, "reg"))
+			case "Snapshot":
+				obs["what"] = r.takeSnapshot(args["r"].(string))
+			case "Install":
+				obs["what"] = r.installSnapshot(args["r"].(string))
+				// the partition objects of that server were built anew
+				r.install()
+				r.settle("enc")
+				r.settle("plain")
 			case "CreateProbe":
 				name := fmt.Sprintf("c17probe-%d-%d", b.ID, sn)
 				_, err := srv.api.CreateStream(context.Background(), &client.CreateStreamRequest{Name: name, Subject: name,
